@@ -38,7 +38,7 @@ fn n_topic(p: &DcpsDomainParticipant) -> usize {
 // @enc DcpsDomainParticipant::delete_user_defined_publisher
 // @enc DcpsDomainParticipant::get_publisher_qos
 #[kani::proof]
-#[kani::unwind(4)]
+#[kani::unwind(2)]
 #[kani::stub(critical_section::acquire, super::support_cs::cs_acquire)]
 #[kani::stub(critical_section::release, super::support_cs::cs_release)]
 fn c36_tree_delete_publisher() {
@@ -95,7 +95,7 @@ fn c36_tree_delete_publisher() {
 // @enc DcpsDomainParticipant::delete_user_defined_subscriber
 // @enc DcpsDomainParticipant::get_subscriber_qos
 #[kani::proof]
-#[kani::unwind(4)]
+#[kani::unwind(2)]
 #[kani::stub(critical_section::acquire, super::support_cs::cs_acquire)]
 #[kani::stub(critical_section::release, super::support_cs::cs_release)]
 fn c36_tree_delete_subscriber() {
@@ -153,7 +153,7 @@ fn c36_tree_delete_subscriber() {
 // @enc DcpsDomainParticipant::delete_data_writer
 // @enc DcpsDomainParticipant::delete_user_defined_publisher
 #[kani::proof]
-#[kani::unwind(4)]
+#[kani::unwind(2)]
 #[kani::stub(critical_section::acquire, super::support_cs::cs_acquire)]
 #[kani::stub(critical_section::release, super::support_cs::cs_release)]
 #[kani::stub(crate::dcps::dcps_domain_participant::participant_entity::DcpsDomainParticipant::announce_deleted_data_writer, super::support_part1::announce_deleted_data_writer_stub)]
@@ -204,7 +204,7 @@ fn c36_tree_delete_writer() {
 // @enc DcpsDomainParticipant::delete_data_reader
 // @enc DcpsDomainParticipant::delete_user_defined_subscriber
 #[kani::proof]
-#[kani::unwind(4)]
+#[kani::unwind(2)]
 #[kani::stub(critical_section::acquire, super::support_cs::cs_acquire)]
 #[kani::stub(critical_section::release, super::support_cs::cs_release)]
 #[kani::stub(crate::dcps::dcps_domain_participant::participant_entity::DcpsDomainParticipant::announce_deleted_data_reader, super::support_part1::announce_deleted_data_reader_stub)]
@@ -254,7 +254,7 @@ fn c36_tree_delete_reader() {
 // @assume stub: TypeInformation::from(DynamicType) returns a fixed value (MD5 over XTypes-serialized type objects); stub: alloc::fmt::format returns an empty String (error texts are in no claim)
 // @enc DcpsDomainParticipant::delete_user_defined_topic
 #[kani::proof]
-#[kani::unwind(8)]
+#[kani::unwind(2)]
 #[kani::stub(critical_section::acquire, super::support_cs::cs_acquire)]
 #[kani::stub(critical_section::release, super::support_cs::cs_release)]
 #[kani::stub(<crate::xtypes::type_object::TypeInformation as core::convert::From<crate::xtypes::dynamic_type::DynamicType<'static>>>::from, super::support_participant::type_information_stub)]
@@ -310,7 +310,7 @@ fn c36_topic_delete_used_by_writer() {
 // @assume stub: TypeInformation::from(DynamicType) returns a fixed value; stub: alloc::fmt::format returns an empty String
 // @enc DcpsDomainParticipant::delete_user_defined_topic
 #[kani::proof]
-#[kani::unwind(8)]
+#[kani::unwind(2)]
 #[kani::stub(critical_section::acquire, super::support_cs::cs_acquire)]
 #[kani::stub(critical_section::release, super::support_cs::cs_release)]
 #[kani::stub(<crate::xtypes::type_object::TypeInformation as core::convert::From<crate::xtypes::dynamic_type::DynamicType<'static>>>::from, super::support_participant::type_information_stub)]
@@ -377,7 +377,7 @@ fn contained(p: &mut DcpsDomainParticipant) -> (bool, bool, bool) {
 // @enc DcpsDomainParticipant::delete_participant_contained_entities
 // @enc DcpsDomainParticipant::is_participant_empty
 #[kani::proof]
-#[kani::unwind(8)]
+#[kani::unwind(2)]
 #[kani::stub(critical_section::acquire, super::support_cs::cs_acquire)]
 #[kani::stub(critical_section::release, super::support_cs::cs_release)]
 #[kani::stub(crate::dcps::dcps_domain_participant::participant_entity::DcpsDomainParticipant::announce_deleted_data_writer, super::support_part1::announce_deleted_data_writer_stub)]
@@ -432,7 +432,7 @@ fn contained_topics(with_cft: bool) {
 // @enc DcpsDomainParticipant::delete_content_filtered_topic
 // @enc DcpsDomainParticipant::is_participant_empty
 #[kani::proof]
-#[kani::unwind(8)]
+#[kani::unwind(2)]
 #[kani::stub(critical_section::acquire, super::support_cs::cs_acquire)]
 #[kani::stub(critical_section::release, super::support_cs::cs_release)]
 #[kani::stub(<crate::xtypes::type_object::TypeInformation as core::convert::From<crate::xtypes::dynamic_type::DynamicType<'static>>>::from, super::support_participant::type_information_stub)]
@@ -450,7 +450,7 @@ fn c36_contained_entities_topics__known() {
 // @enc DcpsDomainParticipant::delete_participant_contained_entities
 // @enc DcpsDomainParticipant::is_participant_empty
 #[kani::proof]
-#[kani::unwind(8)]
+#[kani::unwind(2)]
 #[kani::stub(critical_section::acquire, super::support_cs::cs_acquire)]
 #[kani::stub(critical_section::release, super::support_cs::cs_release)]
 #[kani::stub(<crate::xtypes::type_object::TypeInformation as core::convert::From<crate::xtypes::dynamic_type::DynamicType<'static>>>::from, super::support_participant::type_information_stub)]
